@@ -243,6 +243,30 @@ pub fn k_efi_mmap(ctx: &mut Ctx, g: &Guarded, t: &EFIMemoryMapTag) {
         ctx.ln("efi_nth", format!("{} {}", k, v));
     }
     ctx.ln("efi_count", gv(|| t.memory_areas().count()));
+    // the Debug text of a fresh iterator and of one advanced by one step: the phys_start values it lists
+    let r = guard(|| {
+        let fresh = format!("{:?}", t.memory_areas());
+        let mut it = t.memory_areas();
+        it.next();
+        (nums_after(&fresh, " phys_start: "), nums_after(&format!("{:?}", it), " phys_start: "))
+    });
+    ctx.ln(
+        "efi_dbg",
+        match r {
+            Ok((a, b)) => format!("VAL {} after1={}", list_str(&a), list_str(&b)),
+            Err(()) => "PANIC".to_string(),
+        },
+    );
+}
+
+/// the decimal numbers that follow each occurrence of `key` in a Debug text
+fn nums_after(s: &str, key: &str) -> Vec<u64> {
+    s.match_indices(key)
+        .map(|(i, _)| s[i + key.len()..].chars().take_while(|c| c.is_ascii_digit()).collect::<String>().parse().unwrap_or(u64::MAX))
+        .collect()
+}
+fn list_str(v: &[u64]) -> String {
+    format!("[{}]", v.iter().map(|x| x.to_string()).collect::<Vec<_>>().join(","))
 }
 
 pub fn k_elf(ctx: &mut Ctx, g: &Guarded, t: &ElfSectionsTag) {
@@ -308,6 +332,19 @@ pub fn k_elf(ctx: &mut Ctx, g: &Guarded, t: &ElfSectionsTag) {
             ctx.ln("elf_nth", format!("{} {}", k, v));
         }
         ctx.ln("elf_count", gv(|| t.sections().count()));
+        // the Debug text of the iterator: the addr fields it lists, and whether it ends in "..."
+        let r = guard(|| format!("{:?}", t.sections()));
+        ctx.ln(
+            "elf_dbg",
+            match r {
+                Ok(txt) => format!(
+                    "VAL [{}] more={}",
+                    nums_after(&txt, " addr: ").iter().map(|x| format!("VAL {}", x)).collect::<Vec<_>>().join(","),
+                    txt.contains("\"...\"")
+                ),
+                Err(()) => "PANIC".to_string(),
+            },
+        );
     }
 }
 
